@@ -48,10 +48,12 @@ def theorems(path: Path):
         m = re.match(r"\s*gufunc_family\s+(\S+)\s+documented", ln)
         if m:
             out += [".".join(ns + [f"{p}_{m.group(1)}"]) for p in ("select_agrees_numpy", "loops_reachable", "stores_safe", "outputs_documented",
-                                                                 "accumulators_wide", "no_narrow_arith", "casts_safe")]
+                                                                 "accumulators_wide", "no_narrow_arith", "casts_safe", "flags_documented",
+                                                                 "decorator_documented", "layouts_any")]
         m = re.match(r"\s*njit_family\s+(\S+)\s*$", ln)
         if m:
-            out += [".".join(ns + [f"{p}_{m.group(1)}"]) for p in ("stores_safe", "outputs_documented", "accumulators_wide", "no_narrow_arith", "casts_safe")]
+            out += [".".join(ns + [f"{p}_{m.group(1)}"]) for p in ("stores_safe", "outputs_documented", "accumulators_wide", "no_narrow_arith", "casts_safe",
+                                                                 "flags_documented", "decorator_documented")]
     return out
 
 
